@@ -409,6 +409,9 @@ func cmdLoadCorrupt(args []string) {
 
 func listingEvent(code []ins, start, dialect, m int, via string) string {
 	cfg := cfgFor(dialect, m)
+	if dialect == 94 && (m+start+len(code))%2 == 0 {
+		cfg.Mode = gmars.NOP94 // the third simulator mode is a '94 dialect too
+	}
 	// the warrior must come from the assembler or the loader of the same dialect
 	text := printLoadFile(code, start, dialect, m, nil, false)
 	var wd gmars.WarriorData
